@@ -2,9 +2,10 @@
    modelled in Amm/Math.v, Amm/Pool.v and Base/Dec.v (those files are not edited).
 
      x/liquiditypool/types/tick.go   CalculateMultipliedPriceToTick  -> search_up_g / search_down_g
-         [guard = true]: with notes/patches/C01-price-search-no-progress.patch (a step that does not
-         move the price ends the search with ErrPriceOutOfBound); [guard = false]: the loop as found
-         (= Math.search_up / Math.search_down, LoopsProofs.search_up_g_false).
+         [guard = true]: /repo HEAD (commit 2177391 "stop the price->tick search when a step makes no
+         progress": a step that does not move the price ends the search with ErrPriceOutOfBound)
+         = Math.search_up / Math.search_down (LoopsProofs.search_up_g_true);
+         [guard = false]: the loop as found at the pinned commit.
      x/liquiditypool/keeper/msg_server_create_pool.go + types/pool_params.go -> pool_params_ok
          (notes/patches/C01-create-pool-validation.patch)
      keeper_position.go initFirstPositionForPool  -> first_position_search (the search the first
@@ -69,8 +70,12 @@ Definition search_up_lower (ratio mp0 offset : Z) : Z :=
 
 (* ---- MsgCreatePool parameter validation (types/pool_params.go, after the repair) ---- *)
 Definition MIN_PRICE_RATIO : Z := 1000100000000000000.     (* 1.0001 *)
-Definition pool_params_ok (fee ratio offs : Z) : bool :=
+Definition MAX_PRICE_RATIO : Z := 1500000000000000000.     (* 1.5: |ratio - 1| <= 1/2, PowApprox converges *)
+(* [pool_params_ok_lower]: the validation of commit 117698b (no upper bound on the ratio) *)
+Definition pool_params_ok_lower (fee ratio offs : Z) : bool :=
   (0 <=? fee) && (fee <? P) && (MIN_PRICE_RATIO <=? ratio) && (Z.abs offs <? P).
+Definition pool_params_ok (fee ratio offs : Z) : bool :=
+  pool_params_ok_lower fee ratio offs && (ratio <=? MAX_PRICE_RATIO).
 
 (* ---- what the check evaluates for one search: does it return, and after how many steps? ---- *)
 Inductive verdict := Returns (n : Z) | Hangs | Unknown.
@@ -155,7 +160,13 @@ Definition first_position_search (quote base : Z) (tp : tick_params) : option (b
   | _ => None
   end.
 
+(* Pow(ratio, offset) is evaluated by every price <-> tick conversion; [None] = the model's
+   PowApprox ran out of its 4000 units of fuel (the series does not converge in reasonable time) *)
+Definition pow_converges (tp : tick_params) : bool :=
+  match pow (price_ratio tp) (base_offset tp) with None => false | Some _ => true end.
+
 Definition first_position_verdict (guard : bool) (cap : nat) (quote base : Z) (tp : tick_params) : verdict :=
+  if negb (pow_converges tp) then Unknown else
   match first_position_search quote base tp with
   | None => Returns 0
   | Some (true, mp, offset) => up_verdict guard cap mp offset (price_ratio tp)
